@@ -40,6 +40,8 @@ type ProofCase struct {
 // of sector indices under an index list that refers to a different set (see TestKnown).
 const keyIndexUnbound = "C16/diff-verify/index-unbound"
 
+var knownShown int // at most a few accepted instances of the open finding are spelled out per process
+
 // small cache so that enumerators do not rebuild the same tree for every (start,end)
 var treeCache struct {
 	seed uint64
@@ -645,7 +647,7 @@ func checkDiff(c ProofCase) error {
 			// the open known finding: tolerated (and counted) only where it actually manifests;
 			// every other alteration of this kind is still required to be rejected below
 			stats.G().Excluded(keyIndexUnbound)
-			if n <= 16 {
+			if knownShown++; n <= 16 && knownShown <= 3 {
 				stats.G().Label(fmt.Sprintf("known-accepted: n=%d proof-for=%v%v presented-as=%v", n, c.Freed, c.Acts, acts2))
 			}
 			return true, true
